@@ -20,7 +20,7 @@ RULE = ('program = shipped Integrator x shipped IntegratorStep it can drive '
         'number of equation sets matches), or user-defined integrators '
         '(1-5 stages, py_stage hooks, update_nnps=False, two equation sets, '
         'out-of-order stages) with different steppers per array, with or '
-        'without a periodic DomainManager; data = particle states with a '
+        'without a periodic, mirror or periodic+mirror DomainManager; data = particle states with a '
         'ghost-tagged tail (non-periodic) x (t, dt) x 1-3 consecutive steps. '
         'Non-trivial = a step in which >=2 stage calls ran, particles moved '
         'between two acceleration evaluations or a ghost existed; distinct '
@@ -34,7 +34,8 @@ ASSUMPTIONS = [
     'otherwise',
     'neighbours from LinkedListNNPS(sort_gids=True) on both sides; serial',
 ]
-ESSENTIAL_LABELS = {'all': ['shipped', 'custom', 'periodic', 'static_ghosts',
+ESSENTIAL_LABELS = {'all': ['shipped', 'custom', 'periodic', 'mirror',
+                            'static_ghosts',
                             'py_stage', 'two_sets', 'multi_step',
                             'different_steppers']}
 SHARD_TIMEOUT = {'quick': 1700, 'thorough': 8 * 3600}
@@ -106,7 +107,8 @@ def programs(seedv, n, tier):
             j += 1
             progs.append(dict(kind='shipped', integrator=ik,
                               steppers={'a0': p, 'a1': o}, nsets=nsets,
-                              periodic=bool((j // 2) % 2)))
+                              periodic=[False, True, 'mirror', False, True,
+                                        'mixed'][j % 6]))
     cust = []
     combos = [('I1', 'SA', 'SB'), ('I1', 'SB', 'SC'), ('I2NoDomain', 'SA',
                                                        'SB'),
@@ -126,7 +128,8 @@ def programs(seedv, n, tier):
         if not set(CUSTOM[ic][0]) <= have:
             # every stage the integrator calls must be defined by a stepper
             continue
-        for per in (False, True):
+        for per in (False, True, 'mirror') + (('mixed',) if i % 3 == 0
+                                                else ()):
             cust.append(dict(kind='custom', integrator=ic, steppers=st_,
                              nsets=CUSTOM[ic][1], periodic=per))
     allp = []
@@ -145,7 +148,10 @@ def programs(seedv, n, tier):
         want = [('I1', 'SD', 'SA', False), ('I1', 'SA', 'SD', True),
                 ('I3TwoSets', 'SA', 'SB', True), ('I5', 'SA', 'SB', False),
                 ('I2NoDomain', 'SA', 'SB', False),
-                ('I2Reversed', 'SB', 'SC', False)]
+                ('I2Reversed', 'SB', 'SC', False),
+                ('I1', 'SA', 'SB', 'mirror'),
+                ('I3TwoSets', 'SA', 'SC', 'mirror'),
+                ('I2NoDomain', 'SA', 'SB', 'mixed')]
         core = []
         for ic, s0, s1, per in want:
             for p in cust:
@@ -257,6 +263,14 @@ def make_domain(prog):
     if not prog['periodic']:
         return None
     from pysph.base.nnps import DomainManager
+    if prog['periodic'] == 'mirror':
+        # walls only: ghosts are images of the current particle state and
+        # exist only because update_domain() re-creates them
+        return DomainManager(xmin=0.0, xmax=2.0, ymin=0.0, ymax=2.0,
+                             mirror_in_x=True, mirror_in_y=True)
+    if prog['periodic'] == 'mixed':
+        return DomainManager(xmin=0.0, xmax=2.0, ymin=0.0, ymax=2.0,
+                             periodic_in_x=True, mirror_in_y=True)
     return DomainManager(xmin=0.0, xmax=2.0, ymin=0.0, ymax=2.0,
                          periodic_in_x=True, periodic_in_y=True)
 
@@ -337,8 +351,10 @@ def run_data(prog, sides, data, bitwise):
     labels = [prog['kind']]
     fails = []
     kl = dict(integrator=prog['integrator'].split('.')[-1])
-    if prog['periodic']:
+    if prog['periodic'] in (True, 'mixed'):
         labels.append('periodic')
+    if prog['periodic'] in ('mirror', 'mixed'):
+        labels.append('mirror')
     if any(a['nghost'] for a in data['arrays']):
         labels.append('static_ghosts')
     if prog['nsets'] >= 2:
